@@ -114,7 +114,8 @@ Level2 ==
 Next == Level1 \/ Level2
 Spec == Init /\ [][Next]_vars
 
-Kept == (idx + 7 * k + c) % Sample = Offset % Sample
+\* sampling hash: the division terms break the arithmetic regularity of idx (every residue class is populated)
+Kept == (idx + (idx \div 7) + (idx \div 61) + 5 * k + c) % Sample = Offset % Sample
 \* two-ply expectations: after each special move (landing on a corner, castling, en passant, promotion) what the rules
 \* allow the other side
 Then(p) == LET S == {m \in Legal(p) : m[2] \in {1, 8, 57, 64} \/ IsCastle(p, m) \/ IsEpCapture(p, m) \/ m[3] # 0} IN
